@@ -52,7 +52,8 @@ def cont(cid, inh="", nest=False):
     return dict(cid=cid, inh=inh, nest=bool(nest))
 
 
-PATH_POOL = ["%s with blank", "%s-ünï-cødé", "two  blanks %s x", "%s", "%s+a,b=c@d%%e", "日本 %s", " %s lead-and-trail "]
+PATH_POOL = ["%s", "%s with blank", "two  blanks %s x", "%s-ünï-cødé", " %s lead-and-trail ", "%s's $x;y&z (p)", "日本 %s",
+             "%s+a,b=c@d%%e", '%s#h *g ?q "dq"']   # no tab/newline (cache field separators), no backslash (see report)
 PKGS = {"p1": "pkg", "p2": "pkg2"}          # spec package name -> cat/<name>-1
 ORDERS = {"p1": ["p1"], "p2": ["p2"], "p1p2": ["p1", "p2"], "p2p1": ["p2", "p1"]}
 NOPKG = dict(cid=0, inh="", mt=0)
